@@ -117,7 +117,10 @@ func Generate(property, tier string, seed uint64) *Trace {
 	}
 	latest := int64(0)
 	written := map[int]map[string]bool{}
+	// how the writes of a block reach the root store: directly, through a cache-wrapped multistore, or mixed per block
+	via := r.Intn(3)
 	for c := 0; c < commits; c++ {
+		cachedBlock := via == 1 || (via == 2 && r.Chance(0.5))
 		nOps := r.Range(0, 8)
 		if c == 0 && nOps == 0 {
 			nOps = 2
@@ -129,14 +132,14 @@ func Generate(property, tier string, seed uint64) *Trace {
 				written[si] = map[string]bool{}
 			}
 			if r.Chance(0.25) {
-				tr.Steps = append(tr.Steps, Step{Op: "delete", Store: si, Key: hex.EncodeToString(k)})
+				tr.Steps = append(tr.Steps, Step{Op: "delete", Store: si, Key: hex.EncodeToString(k), Cached: cachedBlock})
 			} else {
 				ctr++
 				v := fmt.Sprintf("v%d", ctr)
 				if r.Chance(0.05) {
 					v = ""
 				}
-				tr.Steps = append(tr.Steps, Step{Op: "set", Store: si, Key: hex.EncodeToString(k), Val: hex.EncodeToString([]byte(v))})
+				tr.Steps = append(tr.Steps, Step{Op: "set", Store: si, Key: hex.EncodeToString(k), Val: hex.EncodeToString([]byte(v)), Cached: cachedBlock})
 				written[si][string(k)] = true
 			}
 			// queries and loads between writes: uncommitted data is present while they run
